@@ -1,3 +1,4 @@
+pub mod attrs;
 pub mod capi;
 pub mod echo;
 pub mod edit;
@@ -21,6 +22,7 @@ pub type LaneFn = fn(&str) -> String;
 
 pub fn find(name: &str) -> Option<LaneFn> {
     Some(match name {
+        "attrs" => attrs::run,
         "capi" => capi::run,
         "echo" => echo::run,
         "edit" => edit::run,
